@@ -161,6 +161,14 @@ def check_structure(args):
                          np.abs(r2['h'] - ref_exact['h']).max() / np.abs(ref_exact['h']).max())
                 if d2 <= tol:
                     cause = 'exact-kernel-heuristic-depends-on-description'
+                    # the specification must predict it: the set of physical pulse pairs with the reduced kernel
+                    # (Topology.tla ExactKernel) differs between the two descriptions
+                    fa, ida = D.inexact_pairs(d, recs_by_label[lb])
+                    fb, idb = D.inexact_pairs(descs[ref_label], recs_by_label[ref_label])
+                    if set(ida) != set(idb):
+                        raise C.Machinery('physical pulse identities differ between descriptions %s / %s' % (lb, ref_label))
+                    if fa == fb:
+                        cause = None        # not what the specification predicts: report as an ordinary violation
                 else:
                     # ... or by the inherited criterion for the exact-kernel branch, (d0 + d3) / segment <= 1.1, being
                     # met by an observation point that is NOT on the axis of the source piece (a junction of segments of
